@@ -368,14 +368,16 @@ async fn exec(env: &Env, op: &Op, step_no: usize) -> Result<(String, J), String>
             let n = health_tick(env, Some(worker)).await?;
             let marked = n["marked_unhealthy"].as_array().map(|a| !a.is_empty()).unwrap_or(false);
             let moved = n["failover"].as_array().map(|a| a.iter().any(|f| f["migrations_ok"].as_u64().unwrap_or(0) > 0)).unwrap_or(false);
+            // the marking itself is replicated by the loop (WorkerStatusChanged): name the iteration after
+            // the sub-step that moved or re-deployed pipelines, if any
             let kind = if moved {
                 "failover"
-            } else if marked {
-                "unhealthy-detection"
             } else if n["rebalance_migrations"].as_u64().unwrap_or(0) > 0 {
                 "auto-rebalance"
             } else if n["reconciled"].as_u64().unwrap_or(0) > 0 {
                 "reconcile"
+            } else if marked {
+                "unhealthy-detection"
             } else {
                 "health-loop(idle)"
             };
@@ -504,13 +506,22 @@ async fn wipe(env: &mut Env) -> Result<(), String> {
     Ok(())
 }
 
-async fn run_history(env: &mut Env, ops: &[Op], out: &mut Partial) -> Result<(), String> {
+struct Found {
+    step: usize,
+    sig: String,
+    what: &'static str,
+    witness: J,
+}
+
+/// Runs one history with the monitor after every step. `out`: count evaluations / non-trivial steps there.
+async fn run_ops(env: &mut Env, ops: &[Op], mut out: Option<&mut Partial>) -> Result<Vec<Found>, String> {
     wipe(env).await?;
+    let mut found: Vec<Found> = vec![];
     let mut trace: Vec<J> = vec![];
     let mut prev = snapshot(&*env.coord.read().await);
+    let mut follower_diverged: BTreeSet<&'static str> = BTreeSet::new();
     for (i, op) in ops.iter().enumerate() {
         let (kind, note) = exec(env, op, i).await?;
-        out.eval();
         // ---- the monitor
         let (view, after) = {
             let mut c = env.coord.write().await;
@@ -522,27 +533,37 @@ async fn run_history(env: &mut Env, ops: &[Op], out: &mut Partial) -> Result<(),
         let fview = snapshot(&env.follower);
         let changed = diff(&prev, &view);
         trace.push(json!({"step": i, "operation": op.to_json(), "kind": kind, "result": note, "view_components_changed_by_step": changed.iter().map(|c| c.0).collect::<Vec<_>>()}));
-        if !changed.is_empty() {
-            out.nontrivial(&(kind.clone(), changed.iter().map(|c| c.0).collect::<Vec<_>>()));
-            out.add("steps_that_changed_the_view", 1);
+        if let Some(out) = out.as_deref_mut() {
+            out.eval();
+            if !changed.is_empty() {
+                out.nontrivial(&(kind.clone(), changed.iter().map(|c| c.0).collect::<Vec<_>>()));
+                out.add("steps_that_changed_the_view", 1);
+            }
+            out.add("resyncs_compared", 1);
         }
-        out.add("resyncs_compared", 1);
         let mut d = diff(&view, &after);
         if perturb("expect-events-zero") {
             // deliberately wrong expectation: the view must never contain processed events
             if view.workers.values().any(|w| w["events_processed"] != json!(0)) {
-                d.push(("worker-bookkeeping", json!("perturbed oracle")));
+                d.push(("perturbed-oracle", json!("perturbed oracle")));
             }
         }
         let reverted = !d.is_empty();
         for (component, detail) in &d {
             // the coordinator's own assigned/count bookkeeping after any placement change is one root cause
             // (never replicated), whichever operation changed the placements; heartbeat-reported load is another
-            let sig_kind = if *component == "worker-bookkeeping" && PLACEMENT_KINDS.contains(&kind.as_str()) { "placement-change" } else { kind.as_str() };
-            out.violation(
-                &format!("{}/{}", sig_kind, component),
-                "re-synchronising from the replicated state changed the coordinator's view right after this step: the step's effect (acknowledged to the client or made by the coordinator itself) is not in the replicated state",
-                json!({
+            let sig_kind = if *component == "worker-bookkeeping" && PLACEMENT_KINDS.contains(&kind.as_str()) {
+                "placement-change"
+            } else if *component == "worker-bookkeeping" && kind == "worker-recovery" {
+                "heartbeat"
+            } else {
+                kind.as_str()
+            };
+            found.push(Found {
+                step: i,
+                sig: format!("{}/{}", sig_kind, component),
+                what: "re-synchronising from the replicated state changed the coordinator's view right after this step: the step's effect (acknowledged to the client or made by the coordinator itself) is not in the replicated state",
+                witness: json!({
                     "raft": "single node, MemStore, leader",
                     "history_up_to_violation": trace,
                     "step_kind": kind,
@@ -550,26 +571,69 @@ async fn run_history(env: &mut Env, ops: &[Op], out: &mut Partial) -> Result<(),
                     "difference": detail,
                     "view_before_resync": view_json(&view),
                     "view_after_resync": view_json(&after),
-                    "full_history": ops.iter().map(|o| o.to_json()).collect::<Vec<_>>(),
                 }),
-            );
+            });
         }
         // follower: compare against what the leader shows once it is itself consistent with the
         // replicated state (otherwise the revert above already tells the story)
         if !reverted {
             let fd = diff(&view, &fview);
+            let now: BTreeSet<&'static str> = fd.iter().map(|c| c.0).collect();
             for (component, detail) in &fd {
-                out.violation(
-                    &format!("{}/follower-view/{}", kind, component),
-                    "a follower that synchronised from the same replicated state shows a different cluster view than the leader",
-                    json!({"history_up_to_violation": trace, "step_kind": kind, "component": component, "difference (leader = before_resync, follower = after_resync)": detail,
-                        "leader_view": view_json(&view), "follower_view": view_json(&fview)}),
-                );
+                // a divergence persists until the worker/group disappears: report it at the step where it appears
+                if follower_diverged.contains(component) {
+                    continue;
+                }
+                found.push(Found {
+                    step: i,
+                    sig: format!("{}/follower-view/{}", kind, component),
+                    what: "a follower that synchronised from the same replicated state shows a different cluster view than the leader",
+                    witness: json!({"raft": "single node, MemStore, leader; follower = second Coordinator::with_raft on the same replicated state", "history_up_to_violation": trace, "step_kind": kind, "component": component,
+                        "difference (leader = before_resync, follower = after_resync)": detail, "leader_view": view_json(&view), "follower_view": view_json(&fview)}),
+                });
             }
+            follower_diverged = now;
         }
         prev = after;
     }
-    out.sample(json!({"history": trace.iter().map(|t| json!({"kind": t["kind"], "changed": t["view_components_changed_by_step"]})).collect::<Vec<_>>()}));
+    if let Some(out) = out.as_deref_mut() {
+        out.sample(json!({"history": trace.iter().map(|t| json!({"kind": t["kind"], "changed": t["view_components_changed_by_step"]})).collect::<Vec<_>>()}));
+    }
+    Ok(found)
+}
+
+async fn run_history(env: &mut Env, ops: &[Op], out: &mut Partial, minimised: &mut BTreeSet<String>) -> Result<(), String> {
+    let found = run_ops(env, ops, Some(out)).await?;
+    for f in found {
+        if !minimised.insert(f.sig.clone()) {
+            out.violation(&f.sig, f.what, f.witness);
+            continue;
+        }
+        // first occurrence of this signature on this thread: shrink the history (drop earlier steps one at a
+        // time while the same signature still fires at the last step)
+        let mut cur: Vec<Op> = ops[..=f.step].to_vec();
+        let mut best: Option<Found> = None;
+        let mut j = cur.len().saturating_sub(1);
+        while j > 0 {
+            j -= 1;
+            let mut cand = cur.clone();
+            cand.remove(j);
+            let last = cand.len() - 1;
+            let r = run_ops(env, &cand, None).await?;
+            if let Some(hit) = r.into_iter().find(|x| x.sig == f.sig && x.step == last) {
+                cur = cand;
+                best = Some(hit);
+            }
+        }
+        match best {
+            Some(mut b) => {
+                b.witness["minimised_from_steps"] = json!(f.step + 1);
+                out.add("witnesses_minimised", 1);
+                out.violation(&b.sig, b.what, b.witness);
+            }
+            None => out.violation(&f.sig, f.what, f.witness),
+        }
+    }
     Ok(())
 }
 
@@ -593,7 +657,7 @@ with loopback mock workers; after every step snapshot / sync_from_raft / snapsho
     }
     let threads = ncpu().min(8);
     let budget = Duration::from_secs(args.pick(14, 300));
-    let max_hist: u64 = args.pick(150, 20000);
+    let max_hist: u64 = args.pick(400, 20000);
     let parts = parallel(threads, args.seed, move |ti, mut rng| {
         let mut out = Partial::default();
         let rt = match tokio::runtime::Builder::new_current_thread().enable_all().build() {
@@ -639,10 +703,11 @@ with loopback mock workers; after every step snapshot / sync_from_raft / snapsho
             let mut env = Env { mocks, coord, follower, routes, raft: boot.raft.clone() };
             let start = Instant::now();
             let mut n = 0u64;
+            let mut minimised: BTreeSet<String> = BTreeSet::new();
             while start.elapsed() < budget && n < max_hist {
                 n += 1;
                 let ops = gen_history(&mut rng);
-                if let Err(e) = run_history(&mut env, &ops, &mut out).await {
+                if let Err(e) = run_history(&mut env, &ops, &mut out, &mut minimised).await {
                     out.inconclusive(&format!("thread {}: {}", ti, e));
                     break;
                 }
